@@ -85,7 +85,7 @@ Section Lin.
     length H = S n -> nth_error H n = Some s -> a <= n ->
     (t_pc th = PIdle -> a = n) -> (t_pc th <> PIdle -> claim (sh s) H a n o (t_pc th)) ->
     let s' := {| sh := g'; ths := upd (ths s) t th' |} in
-    (t_pc th' <> PIdle -> cur_op th' = Some o /\ claim g' (H ++ [s']) a (S n) o (t_pc th')) /\
+    (t_pc th' <> PIdle -> t_outs th' = t_outs th /\ claim g' (H ++ [s']) a (S n) o (t_pc th')) /\
     (t_pc th' = PIdle -> t_outs th' = t_outs th ++ [last (t_outs th') Panic] /\
                          just (H ++ [s']) a (S n) o (last (t_outs th') Panic)).
   Proof.
@@ -111,7 +111,7 @@ Section Lin.
     all: try (match goal with |- context [continue _ _ ?k0] => destruct k0; try discriminate WF end).
     all: cbn [continue t_pc setpc finish t_outs cur_op t_prog] in *.
     all: split; intros PI; try congruence.
-    all: try (split; [assumption|]).
+    all: try (split; [reflexivity|]).
     all: try exact Logic.I.
     all: rewrite ?Lst.
     all: try (split; [reflexivity|]).
